@@ -483,6 +483,8 @@ def check_views(ctx, unit):
                 ok, why = rbp.index_ok(n, n.children[0])
                 if ok is None:
                     ok = True
+                if not ok and _lockstep_countdown(f, n, is_len2):
+                    ok, why = True, "index below L: the pointer moves up in lockstep with a counter that starts at L, moves down and ends the loop at 0"
                 ctx.inst("B.view-subscript-bounded", "%s: *iterator #%d" % (f.sig, k + 1), ok, n.loc,
                          "dereference of %s: offset %s, L = this._length (relational bounds analysis over pointer offsets)" % (canon(n.children[0]), why.replace("index", "")), f)
         # element access of ANOTHER view through its (unchecked) operator[]: the index must be inside that view
@@ -636,6 +638,20 @@ def check_views(ctx, unit):
                         g = True
                     if rel[1] == "<" and path(rel[2]) == ("this", "_length"):
                         b = True
+                    if rel[1] == "==" and {path(rel[0]), path(rel[2])} & {("this", "_length")}:
+                        g = True        # (the other length may be a bound parameter of a folded helper)
+                if not b:
+                    # `while(i != _length && ...) ++i; if(i != _length) ... [i]`: bounded by the relational analysis (an index
+                    # that starts at 0, moves up by one and is compared with != stays below the length)
+                    try:
+                        from .relbounds import RelBounds
+                        idxn = s.children[1] if s.kind == "ArraySubscriptExpr" else (s.args[-1] if s.args else None)
+                        if idxn is not None:
+                            rb_ = RelBounds(f, lambda x: path(std_unwrap(x)) == ("this", "_length")).run()
+                            ok_i, _why = rb_.index_ok(s, idxn)
+                            b = bool(ok_i)
+                    except Exception:
+                        b = False
                 ok = ok and g and b
             # the length compared with _length must be the other operand's complete length
             full = True
@@ -645,7 +661,10 @@ def check_views(ctx, unit):
                 c = f.node(blk.cond).strip()
                 if c.kind == "BinaryOperator" and c.op in ("!=", "==") and ("this", "_length") in (path(c.children[0]), path(c.children[1])):
                     r = c.children[1] if path(c.children[0]) == ("this", "_length") else c.children[0]
-                    r = RA.resolve_local(f, r)
+                    r0 = std_unwrap(r)
+                    if r0.kind == "DeclRefExpr" and r0.get("local") and RA._reassigned(f, r0.d["d"]):
+                        continue        # an index compared with the length, not a length
+                    r = RA.resolve_local(f, std_unwrap(r))       # (through a bound parameter of a folded helper, then the local it names)
                     r = std_unwrap(r)
                     nm = r.callee["n"] if (r.is_call() and r.callee) else None
                     rp = path(r)
@@ -782,6 +801,73 @@ def check_to_number_exact(ctx, unit, rule="E.to-number-exact"):
         ok = not overflow or bool(with_digit)
         ctx.inst(rule, "%s<%s>" % (f.uq, f.get("targs", "").strip("<>")), ok, f.loc,
                  "%d decisions on the accumulated value, %d of them look at the current digit" % (len(overflow), len(with_digit)), f)
+
+
+def _lockstep_countdown(f, deref, is_len):
+    """`for(remaining = L; remaining != 0; --remaining) { ... *p ...; ++p; }` with p starting at the character pointer: the
+    offset of p is L - remaining, below L while the loop runs.  Required, structurally: the dereferenced pointer is a local
+    initialised from a base pointer (no offset) and changed only by ++ inside ONE loop; that loop's condition keeps a local
+    counter non-zero (`r != 0`, `r > 0`, `r`); the counter is initialised from a length and changed only by -- inside the
+    loop; on every path around the loop both are stepped exactly once; no step of the pointer can precede the dereference
+    within an iteration."""
+    p = std_unwrap(deref.children[0])
+    if p.kind != "DeclRefExpr" or not p.get("local"):
+        return False
+    pd = p.d["d"]
+    inits = RA.local_inits(f)
+    if pd not in inits:
+        return False
+    pi = std_unwrap(inits[pd])
+    if not (path(pi) and path(pi)[-1] == "_pointer"):
+        return False
+    loops = [lp for lp in flow.natural_loops(f) if lp.contains(deref)]
+    if not loops:
+        return False
+    lp = loops[-1]
+    c = lp.cond
+    if c is None:
+        return False
+    cs = c.strip()
+    cnt = None
+    if cs.kind == "BinaryOperator" and cs.op in ("!=", ">") and std_unwrap(cs.children[1]).cv() == 0:
+        cnt = std_unwrap(cs.children[0])
+    else:
+        cnt = std_unwrap(cs)
+    if cnt is None or cnt.kind != "DeclRefExpr" or not cnt.get("local") or cnt.d["d"] not in inits:
+        return False
+    cd = cnt.d["d"]
+    if not is_len(inits[cd]):
+        return False
+    psteps, csteps = [], []
+    for n in f.all_nodes():
+        tgt = None
+        if n.kind == "UnaryOperator" and n.op in ("++", "--") and n.children:
+            tgt = std_unwrap(n.children[0])
+        elif n.kind in ("BinaryOperator", "CompoundAssignOperator") and str(n.get("op", "")).endswith("=") and n.op not in ("==", "!=", "<=", ">="):
+            tgt = std_unwrap(n.children[0])
+        if tgt is None or tgt.kind != "DeclRefExpr":
+            continue
+        if tgt.d.get("d") == pd:
+            if not (n.kind == "UnaryOperator" and n.op == "++" and lp.contains(n)):
+                return False
+            psteps.append(n)
+        if tgt.d.get("d") == cd:
+            if not (n.kind == "UnaryOperator" and n.op == "--" and lp.contains(n)):
+                return False
+            csteps.append(n)
+    if len(psteps) != 1 or len(csteps) != 1:
+        return False
+    if f.reaches(psteps[0].id, deref.id) and not f.dominates(deref.id, psteps[0].id):
+        return False
+    pos = f.positions()
+    for latch in lp.latches:
+        for st_ in (psteps[0], csteps[0]):
+            if st_.id not in pos:
+                return False
+            b_ = pos[st_.id][0]
+            if not (b_ == latch or f.dominates_block(b_, latch)):
+                return False
+    return True
 
 
 def check_cstring_params(ctx, unit, rule="B.cstring-subscript-bounded"):
